@@ -115,6 +115,21 @@ type canEv struct {
 }
 
 type canTagKey struct{}
+type canMrtrKey struct{}
+
+var canWireMethod = map[string]string{"sample": methodCreateMessage, "elicit": methodElicit, "roots": methodListRoots, "ping": methodPing}
+
+// canMrtrRound classifies an incoming tools/call of the tool "mrtr": 0 = not that tool, 1 = first round (no input
+// responses yet), 2 = the retry that carries the input responses.
+func canMrtrRound(req Request) int {
+	if r, ok := req.(*CallToolRequest); ok && r.Params != nil && r.Params.Name == "mrtr" {
+		if len(r.Params.InputResponses) == 0 {
+			return 1
+		}
+		return 2
+	}
+	return 0
+}
 
 // canCtx is the context of one call: it ends when the harness says so (after logging `can`), with the error
 // the harness chose, or when its parent ends (with the parent's error); values come from the parent.
@@ -255,6 +270,17 @@ func (h *canH) sendMW(next MethodHandler) MethodHandler {
 		tag, ok := ctx.Value(canTagKey{}).(int)
 		if !ok {
 			tag = canIgnore
+			// a server→client call made by serverMultiRoundTripMiddleware (mcp/mrtr.go) to fulfil an input request of
+			// the carrier tool "mrtr": it is the declared nested call with that method; its context is a child of the
+			// middleware's (errgroup) context
+			if ctx.Value(canMrtrKey{}) != nil {
+				for j, k := range h.c.calls {
+					if k.dir == "s2cn" && canWireMethod[k.meth] == method {
+						tag = j
+						ctx = context.WithValue(h.newCtx(ctx, j), canTagKey{}, j)
+					}
+				}
+			}
 		}
 		if p := req.GetParams(); p != nil && !p.isNil() {
 			m := p.GetMeta()
@@ -327,6 +353,15 @@ func (h *canH) recvMW(next MethodHandler) MethodHandler {
 		if tag >= canBlockerTag {
 			time.Sleep(canBlockMs * time.Millisecond) // a notification handler: holds the dispatcher
 			return next(ctx, method, req)
+		}
+		round := canMrtrRound(req)
+		if round == 1 && h.c.pv >= protocolVersion20260728 {
+			// 2026-07-28: the client's clientMultiRoundTripMiddleware fulfils the input requests itself and RETRIES the
+			// call as a new request; the first round answers at once and is not "the handler" of the call: the retry is
+			return next(ctx, method, req)
+		}
+		if round == 1 {
+			ctx = context.WithValue(ctx, canMrtrKey{}, true) // legacy: serverMultiRoundTripMiddleware calls the client
 		}
 		k, ok := h.spec(tag)
 		if !ok {
@@ -409,6 +444,8 @@ func (h *canH) issue(ctx context.Context, tag int, dir, meth string, cs *ClientS
 			_, err = cs.CallTool(ctx, &CallToolParams{Name: "t", Arguments: map[string]any{}})
 		case "drive":
 			_, err = cs.CallTool(ctx, &CallToolParams{Name: "drive", Arguments: map[string]any{}})
+		case "mrtr":
+			_, err = cs.CallTool(ctx, &CallToolParams{Name: "mrtr", Arguments: map[string]any{}})
 		case "ping":
 			err = cs.Ping(ctx, &PingParams{})
 		default:
@@ -824,7 +861,7 @@ func canRunCase(t *testing.T, out *verifOut, id string, c *canCase) {
 		}()
 		carrier := -1
 		for i, k := range c.calls {
-			if k.meth == "drive" {
+			if k.meth == "drive" || (k.meth == "mrtr" && k.mode == "drive") {
 				carrier = i
 			}
 		}
@@ -835,6 +872,29 @@ func canRunCase(t *testing.T, out *verifOut, id string, c *canCase) {
 		server.AddSendingMiddleware(h.sendMW)
 		server.AddTool(&Tool{Name: "t", InputSchema: map[string]any{"type": "object"}}, func(ctx context.Context, req *CallToolRequest) (*CallToolResult, error) {
 			return &CallToolResult{Content: []Content{&TextContent{Text: "ok"}}}, nil
+		})
+		server.AddTool(&Tool{Name: "mrtr", InputSchema: map[string]any{"type": "object"}}, func(ctx context.Context, req *CallToolRequest) (*CallToolResult, error) {
+			if len(req.Params.InputResponses) > 0 {
+				return &CallToolResult{Content: []Content{&TextContent{Text: "ok"}}}, nil
+			}
+			irs := InputRequestMap{}
+			for _, k := range c.calls {
+				if k.dir != "s2cn" {
+					continue
+				}
+				switch k.meth {
+				case "sample":
+					irs["sample"] = &CreateMessageParams{MaxTokens: 5, Messages: []*SamplingMessage{{Role: "user", Content: &TextContent{Text: "x"}}}}
+				case "elicit":
+					irs["elicit"] = &ElicitParams{Message: "x"}
+				case "roots":
+					irs["roots"] = &ListRootsParams{}
+				}
+			}
+			if len(irs) == 0 {
+				irs["elicit"] = &ElicitParams{Message: "x"}
+			}
+			return &CallToolResult{InputRequests: irs, RequestState: "round-1"}, nil
 		})
 		server.AddTool(&Tool{Name: "drive", InputSchema: map[string]any{"type": "object"}}, func(ctx context.Context, req *CallToolRequest) (*CallToolResult, error) {
 			h.script(ctx, req.Session, carrier)
@@ -1147,7 +1207,26 @@ func canGen(rng *rand.Rand, tr string) *canCase {
 		}
 		return c
 	}
-	if s2c {
+	if s2c && rng.Intn(4) == 0 {
+		// the carrier is a tool that asks for input (mcp/mrtr.go): for a legacy client serverMultiRoundTripMiddleware
+		// makes the server→client calls itself (one per input request, concurrently, on an errgroup context derived
+		// from the handler's) and re-invokes the handler.  The victim is the carrier or a bystander (a failing input
+		// request fails the tool call by design, so no input request is a victim).
+		c.calls = append(c.calls, canCall{dir: "c2s", meth: "mrtr", mode: "drive"})
+		for _, m := range []string{"sample", "elicit", "roots"} {
+			if rng.Intn(2) == 0 || (m == "roots" && len(c.calls) == 1) {
+				md, d := mode()
+				c.calls = append(c.calls, canCall{dir: "s2cn", meth: m, mode: md, d: d})
+			}
+		}
+		if rng.Intn(2) == 0 {
+			m, d := mode()
+			c.calls = append(c.calls, canCall{dir: "c2s", meth: []string{"tool", "ping"}[rng.Intn(2)], mode: m, d: d, at: at()})
+			if rng.Intn(2) == 0 {
+				c.victim = len(c.calls) - 1
+			}
+		}
+	} else if s2c {
 		c.calls = append(c.calls, canCall{dir: "c2s", meth: "drive", mode: "drive"})
 		n := 1 + rng.Intn(3)
 		for k := 0; k < n; k++ {
@@ -1172,7 +1251,8 @@ func canGen(rng *rand.Rand, tr string) *canCase {
 			m, d := mode()
 			meth := []string{"tool", "tool", "ping"}[rng.Intn(3)]
 			if isNew {
-				meth = "tool"
+				// 2026-07-28: "mrtr" = a tool that asks for input; clientMultiRoundTripMiddleware fulfils it and retries
+				meth = []string{"tool", "mrtr"}[rng.Intn(2)]
 			}
 			c.calls = append(c.calls, canCall{dir: "c2s", meth: meth, mode: m, d: d, at: at()})
 		}
